@@ -358,6 +358,14 @@ func (srv *server) registerClient(connect *packets.Connect, client *client) (ses
 	if err != nil {
 		return
 	}
+	// Stop closes the registered clients while holding srv.mu: a client that registers
+	// after that would never be closed, so refuse it once the server is stopping.
+	select {
+	case <-srv.exitChan:
+		srv.mu.Unlock()
+		return false, errors.New("server is stopping")
+	default:
+	}
 	defer func() {
 		if err == nil {
 			var willMsg *gmqtt.Message
